@@ -8,7 +8,7 @@ period_by_period; the returned path is compared with the spec path, the frames r
 each frame's own databox with the written-back slices, measurement variables with their inputs; for T3 the clause of the statement is
 evaluated on every frame with the terminal condition in force.
 """
-import os, math
+import os, math, zlib
 import numpy as np
 import irispie as ir
 from .. import tlc, tlaval
@@ -389,7 +389,7 @@ def run(chk):
                 continue
             if cfg[0] == ONE_STEP and not out["linear"]:
                 continue            # L6 is linear in logs only: one step is not enough
-            if not thorough and cfg[0] in ("stacked_time", "stacked", "period", ONE_STEP) and ci != 0 and (i + ci) % 4 != 0:
+            if not thorough and cfg[0] in ("stacked_time", "stacked", "period", ONE_STEP) and ci != 0 and (zlib.crc32(repr(_plain(sc)).encode()) + ci) % 4 != 0:
                 continue
             ok = check_linear(chk, sc, out, path, cfg, 4)
             n += 1
